@@ -91,4 +91,93 @@ theorem fromUncompressed_fiber_shape_allDefault (dflt : ν) (d : Nat) (n : Nest 
   rfl
 
 end FromU
+
+/-! ## §2  uncompress ∘ fromUncompressed -/
+
+section Unc
+variable {ν : Type} [DecidableEq ν]
+
+/-- Round trip, PARTIAL: for every rectangular nest with positive dimensions that has at
+    least one non-default entry, uncompressing the tree built from it to the nest's
+    dimensions returns the nest.  (Gap: the property also claims this for all-default
+    nests; there the code raises — `uncompress_fromUncompressed_allDefault_fails`.) -/
+theorem uncompress_fromUncompressed_partial (dflt : ν) : ∀ (d : Nat) (dims : List Nat) (n : Nest ν (d + 1)),
+    rectB (d + 1) dims n = true → (∀ k ∈ dims, 0 < k) → allDefault dflt (d + 1) n = false →
+    uncompress dflt d dims (fromUncompressed dflt d n) = some n := by
+  intro d
+  induction d with
+  | zero =>
+    intro dims n hr hpos hnd
+    cases dims with
+    | nil => rw [rectB_succ_nil] at hr; cases hr
+    | cons m ns =>
+      obtain ⟨hlen, _⟩ := rect_parts hr
+      cases h : makeFiber dflt 0 n with
+      | none => rw [(makeFiber_eq_none_iff dflt 0 n).1 h] at hnd; cases hnd
+      | some t =>
+        have g := makeFiber_good dflt 0 n t h
+        rw [fromUncompressed_of_some h, uncompress_zero, present_of_noEmpty dflt 0 t g.noEmpty, g.chain,
+          if_pos rfl, fillEmpty_zero, rangeFib_eq, ← hlen, (makeFiber_some_zero h).1]
+        refine (uncRows_lockstep (leafKeep dflt) (fun (v : ν) => some v) (some dflt) (asNestList n) 0).trans ?_
+        apply mapMOpt_eq_some_self
+        intro x _
+        cases hk : leafKeep dflt x with
+        | none => exact congrArg some (leafKeep_eq_none.1 hk).symm
+        | some w => exact congrArg some (leafKeep_eq_some.1 hk).2.symm
+  | succ d ih =>
+    intro dims n hr hpos hnd
+    cases dims with
+    | nil => rw [rectB_succ_nil] at hr; cases hr
+    | cons m ns =>
+      obtain ⟨hlen, hall⟩ := rect_parts hr
+      have hpos' : ∀ k ∈ ns, 0 < k := fun k hk => hpos k (List.mem_cons_of_mem _ hk)
+      cases h : makeFiber dflt (d + 1) n with
+      | none => rw [(makeFiber_eq_none_iff dflt (d + 1) n).1 h] at hnd; cases hnd
+      | some t =>
+        have g := makeFiber_good dflt (d + 1) n t h
+        rw [fromUncompressed_of_some h, uncompress_succ, present_of_noEmpty dflt (d + 1) t g.noEmpty, g.chain,
+          if_pos rfl, rangeFib_eq, ← hlen, (makeFiber_some_succ h).1]
+        refine (uncRows_lockstep (makeFiber dflt d) (fun t => uncompress dflt d ns t)
+          (fillEmpty (some dflt) (d + 1) ns) (asNestList n) 0).trans ?_
+        apply mapMOpt_eq_some_self
+        intro x hx
+        cases hk : makeFiber dflt d x with
+        | none =>
+          exact fillEmpty_of_rect dflt (d + 1) ns x (hall x hx) hpos' ((makeFiber_eq_none_iff dflt d x).1 hk)
+        | some w =>
+          have hx' : allDefault dflt (d + 1) x = false := by
+            cases ha : allDefault dflt (d + 1) x with
+            | false => rfl
+            | true => rw [(makeFiber_eq_none_iff dflt d x).2 ha] at hk; cases hk
+          have := ih ns x (hall x hx) hpos' hx'
+          rw [fromUncompressed_of_some hk] at this
+          exact this
+
+/-- The excluded class really fails (this is the negation of the full statement, for every
+    all-default nest with positive dimensions): `_fillempty` reads `payloads[0]` of the empty
+    root, the model's `none` = Python's `IndexError`. -/
+theorem uncompress_fromUncompressed_allDefault_fails (dflt : ν) (d : Nat) (dims : List Nat) (n : Nest ν (d + 1))
+    (hr : rectB (d + 1) dims n = true) (hpos : ∀ k ∈ dims, 0 < k) (hall : allDefault dflt (d + 1) n = true) :
+    uncompress dflt d dims (fromUncompressed dflt d n) = none := by
+  have hnone := (makeFiber_eq_none_iff dflt d n).2 hall
+  rw [fromUncompressed_of_none hnone]
+  cases dims with
+  | nil => rw [rectB_succ_nil] at hr; cases hr
+  | cons m ns =>
+    obtain ⟨hlen, _⟩ := rect_parts hr
+    have hm : 0 < m := hpos m (List.mem_cons_self ..)
+    have hpos' : ∀ k ∈ ns, 0 < k := fun k hk => hpos k (List.mem_cons_of_mem _ hk)
+    obtain ⟨m', rfl⟩ : ∃ m', m = m' + 1 := ⟨m - 1, by omega⟩
+    cases d with
+    | zero =>
+      show uncRows (fun (v : ν) => some v) (fillEmpty none 0 ns) (orMerge [] (rangeFib (m' + 1))) = none
+      rw [rangeFib_eq, rangeFibFrom_succ, fillEmpty_zero]
+      simp [orMerge, uncRows]
+    | succ d =>
+      show uncRows (fun (t : Tree Nat ν (d + 1)) => uncompress dflt d ns t) (fillEmpty none (d + 1) ns)
+        (orMerge [] (rangeFib (m' + 1))) = none
+      rw [rangeFib_eq, rangeFibFrom_succ, fillEmpty_none_of_pos (d + 1) ns hpos']
+      simp [orMerge, uncRows]
+
+end Unc
 end Ft
